@@ -1,5 +1,6 @@
 import PgVerif.Proofs.Forest
 import PgVerif.Proofs.ForestNodup
+import PgVerif.Proofs.ForestConcrete
 /-!
 # C03 — Forest packs each derivation once; counting and indexing are consistent
 
@@ -61,6 +62,27 @@ theorem C03_first_tree_is_index_zero (F : Forest) (root : Nat) :
     firstTree F root = treeAt F root 0 :=
   firstTree_eq_treeAt_zero F root
 
+/-- `forest[0], …, forest[len-1]` are pairwise different *parse trees* (not only different
+choices), for every forest keyed like an SPPF (`Forest.keyed`, decidable, evaluated on every
+forest the implementation returns; it fails exactly where an ambiguity node lists an
+alternative twice or two competing alternatives cannot be told apart by their children). -/
+theorem C03_parse_trees_pairwise_distinct (lhsOf : Nat → Nat) (F : Forest) (hwf : F.wf = true)
+    (hk : F.keyed lhsOf = true) (root : Nat) : ((trees F root).map (CTree.concrete F)).Nodup :=
+  concrete_trees_nodup lhsOf F hwf hk root
+
+theorem C03_index_gives_distinct_parse_trees (lhsOf : Nat → Nat) (F : Forest) (hwf : F.wf = true)
+    (hk : F.keyed lhsOf = true) (root : Nat) (hr : root < F.length)
+    (i j : Nat) (hi : i < solutions F root) (hj : j < solutions F root) (hne : i ≠ j) :
+    (treeAt F root i).map (CTree.concrete F) ≠ (treeAt F root j).map (CTree.concrete F) := by
+  intro h
+  rw [treeAt_eq_get F hwf root hr i hi, treeAt_eq_get F hwf root hr j hj] at h
+  have hli : i < (trees F root).length := by rw [← solutions_eq]; exact hi
+  have hlj : j < (trees F root).length := by rw [← solutions_eq]; exact hj
+  simp only [List.getElem?_eq_getElem hli, List.getElem?_eq_getElem hlj, Option.map_some,
+    Option.some.injEq] at h
+  have := concrete_injective lhsOf F hwf hk root _ (List.getElem_mem hli) _ (List.getElem_mem hlj) h
+  exact hne ((List.getElem_inj (trees_nodup F root)).mp this)
+
 def exF : Forest := [⟨[.term 1 0 1]⟩, ⟨[.nonterm 1 0 1 [0], .term 2 0 1]⟩]
 
 /-- Non-vacuity: a two-node forest with an ambiguous root (two alternatives,
@@ -69,5 +91,9 @@ rejects index 2. -/
 example : exF.wf = true ∧ solutions exF 1 = 2 ∧ (treeAt exF 1 1).isSome = true ∧
     (match getTree exF 1 2 with | .indexError => true | .tree _ => false) = true := by
   decide
+
+/-- Non-vacuity of `Forest.keyed`: an ambiguous root over two different terminal nodes of the same span. -/
+example : let F : Forest := [⟨[.term 1 0 1]⟩, ⟨[.term 2 0 1]⟩, ⟨[.nonterm 1 0 1 [0], .nonterm 2 0 1 [1]]⟩]
+    F.wf = true ∧ F.keyed (fun _ => 7) = true ∧ solutions F 2 = 2 := by decide
 
 end Pg
